@@ -4,6 +4,7 @@
   sd._SessionStorage.check_received / assign_outgoing
   sd.ServiceDiscoveryProtocol.sd_message_received (the per-entry dispatch), sd.ServiceDiscover.handle_offer / is_watching_service
   (control-flow SKELETONS: which component method is called, directly or through call_soon, under which condition)
+  service.SimpleService.message_received (the chain of checks deciding the reply: which error, positive reply or silence)
 with Python's ast module and emits theories/Generated/LogicGen.v: Gallina definitions gen_* that follow the Python
 statement by statement.  Proofs/GenEquiv.v proves gen_* equal to the hand-written model functions, so a change of these
 functions' logic breaks a proof obligation of C19 / C07 / C08 (a harmless rewrite may break it too).
@@ -379,12 +380,119 @@ def gen_skeletons(sd):
     return out
 
 
+# ---- service.py: SimpleService.message_received (the reply decision chain of C16) ----
+MSG_ATTR = {"service_id": "m_sid m", "interface_version": "m_iv m", "method_id": "m_mid m", "message_type": "m_mt m", "return_code": "m_rc m"}
+SELF_ATTR = {"service_id": "svc_id", "version_major": "ver"}
+
+
+def msg_num(n):
+    if isinstance(n, ast.Attribute):
+        d = dotted(n)
+        if d and d.startswith("someip_message.") and n.attr in MSG_ATTR:
+            return MSG_ATTR[n.attr]
+        if d and d.startswith("self.") and n.attr in SELF_ATTR:
+            return SELF_ATTR[n.attr]
+        if d and d.startswith("header.SOMEIPReturnCode."):
+            return "RC_" + n.attr
+        if d and d.startswith("header.SOMEIPMessageType."):
+            return "MT_" + n.attr
+    raise Abort("service: unsupported operand " + ast.dump(n)[:100])
+
+
+def msg_cond(n):
+    if isinstance(n, ast.Name) and n.id == "multicast":
+        return "mc"
+    if isinstance(n, ast.BoolOp) and isinstance(n.op, ast.And):
+        return "(" + " && ".join(msg_cond(v) for v in n.values) + ")"
+    if isinstance(n, ast.Compare) and len(n.ops) == 1:
+        a, b, op = n.left, n.comparators[0], n.ops[0]
+        if isinstance(op, (ast.Is, ast.IsNot)) and isinstance(b, ast.Constant) and b.value is None and isinstance(a, ast.Name):
+            atom = {"method": "known", "response": "has_response"}.get(a.id)
+            if atom is None:
+                raise Abort("service: 'is None' on " + a.id)
+            return f"(negb {atom})" if isinstance(op, ast.Is) else atom
+        if isinstance(op, ast.NotIn) and isinstance(b, ast.Tuple):
+            return "(negb (" + " || ".join(f"({msg_num(a)} =? {msg_num(x)})" for x in b.elts) + "))"
+        if isinstance(op, ast.NotEq):
+            return f"(negb ({msg_num(a)} =? {msg_num(b)}))"
+        if isinstance(op, ast.Eq):
+            return f"({msg_num(a)} =? {msg_num(b)})"
+    raise Abort("service: unsupported condition " + ast.dump(n)[:100])
+
+
+def is_noise(st):
+    """logging and warnings"""
+    if isinstance(st, ast.Expr) and isinstance(st.value, ast.Call):
+        d = dotted(st.value.func) or ""
+        return d.startswith("self.log.") or d.startswith("LOG.") or d == "warnings.warn"
+    return False
+
+
+def error_call(st):
+    """self.send_error_response(someip_message, addr, header.SOMEIPReturnCode.X) -> RC_X"""
+    if (isinstance(st, ast.Expr) and isinstance(st.value, ast.Call) and dotted(st.value.func) == "self.send_error_response"
+            and not st.value.keywords and len(st.value.args) == 3
+            and [getattr(a, "id", None) for a in st.value.args[:2]] == ["someip_message", "addr"]):
+        return msg_num(st.value.args[2])
+    return None
+
+
+def gen_service(svc):
+    f = fn_ast(svc.SimpleService.message_received)
+    if [a.arg for a in f.args.args] != ["self", "someip_message", "addr", "multicast"]:
+        raise Abort("message_received: unexpected parameters")
+    stmts = [s for s in body_of(f) if not is_noise(s)]
+    lines = []
+    k = 0
+    while k < len(stmts) and not isinstance(stmts[k], ast.Try):
+        st = stmts[k]
+        k += 1
+        if (isinstance(st, ast.Assign) and len(st.targets) == 1 and getattr(st.targets[0], "id", "") == "method"
+                and isinstance(st.value, ast.Call) and dotted(st.value.func) == "self.methods.get"
+                and [dotted(a) for a in st.value.args] == ["someip_message.method_id"]):
+            continue        # method = self.methods.get(someip_message.method_id): the atom `known`
+        if not (isinstance(st, ast.If) and not st.orelse):
+            raise Abort("message_received: unsupported statement before the handler call: " + type(st).__name__)
+        body = [s for s in st.body if not is_noise(s)]
+        if len(body) == 1 and isinstance(body[0], ast.Return) and body[0].value is None:
+            lines.append(f"  if {msg_cond(st.test)} then (GNoReply, false) else")
+        elif len(body) == 2 and error_call(body[0]) and isinstance(body[1], ast.Return) and body[1].value is None:
+            lines.append(f"  if {msg_cond(st.test)} then (GError {error_call(body[0])}, false) else")
+        else:
+            raise Abort("message_received: a guard must reply with one error (or nothing) and return")
+    rest = stmts[k:]
+    # try: response = method(someip_message, addr)  except MalformedMessageError: <error>; return
+    if len(rest) != 2 or not isinstance(rest[0], ast.Try) or not isinstance(rest[1], ast.If) or rest[1].orelse:
+        raise Abort("message_received: expected the handler call in a try followed by the positive reply")
+    tr = rest[0]
+    tb = [s for s in tr.body if not is_noise(s)]
+    ok = (len(tb) == 1 and isinstance(tb[0], ast.Assign) and getattr(tb[0].targets[0], "id", "") == "response"
+          and isinstance(tb[0].value, ast.Call) and getattr(tb[0].value.func, "id", "") == "method"
+          and [getattr(a, "id", None) for a in tb[0].value.args] == ["someip_message", "addr"]
+          and len(tr.handlers) == 1 and getattr(tr.handlers[0].type, "id", "") == "MalformedMessageError" and not tr.orelse and not tr.finalbody)
+    if not ok:
+        raise Abort("message_received: unexpected handler call")
+    hb = [s for s in tr.handlers[0].body if not is_noise(s)]
+    if not (len(hb) == 2 and error_call(hb[0]) and isinstance(hb[1], ast.Return) and hb[1].value is None):
+        raise Abort("message_received: unexpected except body")
+    lines.append(f"  if malformed then (GError {error_call(hb[0])}, true) else")
+    pos = [s for s in rest[1].body if not is_noise(s)]
+    c = pos[0].value if len(pos) == 1 and isinstance(pos[0], ast.Expr) and isinstance(pos[0].value, ast.Call) else None
+    if not (c and dotted(c.func) == "self.send_positive_response" and [getattr(a, "id", None) for a in c.args] == ["someip_message", "addr"]
+            and [(kw.arg, getattr(kw.value, "id", None)) for kw in c.keywords] == [("payload", "response")]):
+        raise Abort("message_received: unexpected positive reply")
+    lines.append(f"  if {msg_cond(rest[1].test)} then (GPositive, true) else (GNoReply, true).")
+    return ["Definition gen_service_receive (svc_id ver : N) (known : bool) (m : someip) (mc malformed has_response : bool) : greply * bool :=\n"
+            + "\n".join(lines) + "\n"]
+
+
 def main():
     out_path = sys.argv[1]
     try:
         import someip.config as cfg
         import someip.sd as sd
-        parts = gen_matchers(cfg) + gen_check_received(sd) + gen_assign_outgoing(sd) + gen_skeletons(sd)
+        import someip.service as svc
+        parts = gen_matchers(cfg) + gen_check_received(sd) + gen_assign_outgoing(sd) + gen_skeletons(sd) + gen_service(svc)
     except Abort as exc:
         print("gen_logic: ABORT:", exc)
         return 2
